@@ -173,7 +173,7 @@ inductive Shape where
   deriving Inhabited
 
 /-- Is vertex `k` (position `p`) on the intended surface, to within `t` (degree 1)? -/
-def onSurface (sh : Shape) (t : Int) (k : Nat) (p : I3) : Bool :=
+def onSurface (sh : Shape) (t : Int) (_k : Nat) (p : I3) : Bool :=
   match sh with
   | .unitSphere => nearSqrt (dot3 p p) one t
   | .sphere r => nearSqrt (dot3 p p) r t
@@ -194,13 +194,9 @@ def onSurface (sh : Shape) (t : Int) (k : Nat) (p : I3) : Bool :=
     let d2 := p.1 * p.1 + p.2.2 * p.2.2
     let h := iabs p.2.1 - one
     if h ≤ 0 then nearSqrt d2 r t else nearSqrt (d2 + h * h) r t
-  | .rings secs nPoints prof =>
-    let n := secs + 1
-    let ringV := nPoints * n
-    let j := if k < ringV then k / n else if k < ringV + n then 0 else nPoints - 1
-    match prof[j]? with
-    | some (x, y) => iabs (p.2.1 - y) ≤ t && nearSqrt (p.1 * p.1 + p.2.2 * p.2.2) (iabs x) t
-    | none => false
+  | .rings _ _ prof =>
+    -- on the circle swept by some profile point (no assumption on the vertex order)
+    prof.any fun (x, y) => iabs (p.2.1 - y) ≤ t && nearSqrt (p.1 * p.1 + p.2.2 * p.2.2) (iabs x) t
 
 /-- All eight corners of the box occur among the vertices. -/
 def boxCornersPresent (m : Mesh) (l r : I3) : Bool :=
